@@ -79,8 +79,8 @@ CHECKS = {
                      "to its interleaved trace; ddmin replay files",
         "text": "Seeded search over histories: which unrelated designs were loaded, decomposed, refined, encoded or legalised "
                 "before the probed operation, in which order, with which loads rejected or killed midway. Each operation's "
-                "observable result (verdict, exception class, full canonical result; SAT clause sets modulo auxiliary "
-                "numbering) must equal that of the same script run alone in a fresh process. A divergence is attributed to "
+                "observable result (verdict, exception class, full canonical result; SAT encodings by their "
+                "projected model set) must equal that of the same script run alone in a fresh process. A divergence is attributed to "
                 "the process-wide variable that alone reproduces it; two attributed leaks are kept as known findings, "
                 "anything else is a violation. Sampling, not proof; the level fits because the property is a statement "
                 "about histories over process-global state.",
@@ -139,7 +139,7 @@ CHECKS = {
                      "alone-run comparison in a fresh forked interpreter; ddmin-minimised replay files",
         "text": "Seeded search over histories (which manager posts what, in which order, which encoding is killed midway) in one "
                 "interpreter; after every post the projection of the CNF's models on the user variables is compared exhaustively "
-                "with a reference model built from the generator's description, and the clause set (modulo auxiliary numbering) "
+                "with a reference model built from the generator's description, and the encoding's projected model set "
                 "with the same script run alone in a fresh process. Sampling, not proof: right level because the property "
                 "quantifies over histories sharing process-global state, which only an execution-level simulator reaches.",
         "note": "Trusts pysat as SAT oracle (used both by FRAME and, independently instantiated, by the projection); managers "
